@@ -392,6 +392,24 @@ void suite_endian(int tier) {
             op_fraginv(c, twin, s.flen, 0);
             stat_add("endian.twins", 1);
         }
+        /* headers with every field pushed to values that exercise all bytes of the swaps (re-sealed):
+           the two renderings must still agree field by field */
+        for (int r = 0; r < (tier ? 40 : 16); r++) {
+            memcpy(nat, s.all[rnd(s.n)], s.flen);
+            uint64_t big[] = { 1ull << 24, (1ull << 24) + 17, 0xffffffffull, 1ull << 32, (1ull << 32) + 4096, 0x0123456789abcdefull, 0xfedcba9876543210ull, 1ull << 63, (1ull << 40) + 5, 0x00ff00ff00ff00ffull };
+            uint64_t o = r < 10 ? big[r] : (rnd64() >> rnd(64));
+            memcpy(nat + 12, &o, 8);                                           /* orig_data_size */
+            wr32(nat + 0, r % 3 == 0 ? (uint32_t)rnd64() : rnd(40));           /* idx */
+            if (r % 2) wr32(nat + 55, (uint32_t)rnd64());                      /* backend version */
+            if (r % 4 == 1) nat[54] = (unsigned char)rnd(256);                 /* backend id */
+            if (c.ct != 2) for (int w = 0; w < 8; w++) wr32(nat + 21 + 4 * w, (uint32_t)rnd64());   /* checksum words */
+            if (r % 5 == 2) wr32(nat + 8, (uint32_t)rnd64());                  /* backend metadata size */
+            reseal(nat);
+            memcpy(twin, nat, s.flen); make_twin(twin);
+            op_meta(nat, s.flen, 0); op_meta(twin, s.flen, 0);
+            compare_md(nat, twin, "fragment with extreme header fields");
+            stat_add("endian.extreme_fields", 1);
+        }
         /* a twin inside a decode set */
         {
             char **fr = malloc(sizeof(char *) * s.n);
@@ -428,6 +446,28 @@ void suite_valid(int tier) {
         /* stripe verification: the instance's own stripe passes, a foreign one is judged by the same rules */
         int rc = op_stripe(inst[i], st[j].n, st[j].all, st[j].flen);
         if (i == j && rc != 0) oracle_fail("C12", "verify_stripe_metadata rejects the instance's own stripe: %d", rc);
+    }
+    /* a well-formed fragment in the opposite byte order is not valid for any instance: validation accepts
+       host order only */
+    for (int i = 0; i < n; i++) {
+        stripe_t *s = &st[i];
+        unsigned char *twin = malloc(s->flen);
+        for (int f = 0; f < s->n; f++) {
+            memcpy(twin, s->all[f], s->flen); make_twin(twin);
+            int inv = op_fraginv(inst[i], twin, s->flen, 0);
+            if (!inv) oracle_fail("C12", "fragment %d in the opposite byte order validates as good: be=%d (%d,%d)", f, inst[i].be, inst[i].k, inst[i].m);
+            if (f == 0 || f == s->n - 1) {
+                char **fr = malloc(sizeof(char *) * s->n);
+                for (int q = 0; q < s->n; q++) fr[q] = s->all[q];
+                fr[f] = (char *)twin;
+                /* stripe verification looks at the raw index / backend id / backend version fields only: the
+                   verdict is whatever those tests say (compared with the model), not necessarily negative */
+                op_stripe(inst[i], s->n, fr, s->flen);
+                free(fr);
+            }
+            stat_add("valid.foreign_order", 1);
+        }
+        free(twin);
     }
     /* re-sealed single-field edits */
     for (int i = 0; i < n; i++) {
